@@ -747,3 +747,29 @@ def replay_hi_names(obligation=None, model=None, meta=None):
 replay_hi_names.real_system = True       # drives the real program on stock inputs: a crash inside repository code is a confirmed failure
 
 replay_extparam_group.real_system = True       # drives the real program on stock inputs: a crash inside repository code is a confirmed failure
+
+
+def replay_request_address(obligation=None, model=None, meta=None):
+    """native run of the real DAE.request_address on a stub: every (devices, variables, layout, start) of a small grid -- the block
+    [start, start + devices * variables) is handed out exactly once (a bijection), variable k / device d sits at start + k * devices + d
+    (contiguous) or start + d * variables + k (collated), and the counter ends at the end of the block"""
+    import numpy as np
+    from andes.variables.dae import DAE
+    from contracts.packutil import Stub
+    n = 0
+    for which, counter in (('x', 'n'), ('y', 'm')):
+        for start in (0, 7):
+            for ndev in (1, 2, 3, 5):
+                for nvar in (1, 2, 4):
+                    for collate in (False, True):
+                        stub = Stub(DAE, _array_and_counter={'x': 'n', 'y': 'm'}, n=start, m=start)
+                        n += 1
+                        out = DAE.request_address(stub, which, ndev, nvar, collate=collate)
+                        want = [[start + (d * nvar + k if collate else k * ndev + d) for d in range(ndev)] for k in range(nvar)]
+                        got = [np.asarray(a).tolist() for a in out]
+                        end = getattr(stub, counter)
+                        if got != want or end != start + ndev * nvar:
+                            return {'confirmed': True, 'inputs': {'array': which, 'first free address': start, 'devices': ndev, 'variables': nvar, 'collate': collate},
+                                    'observed': 'addresses per variable %r, counter %r; the layout is %r with the counter at %r' % (got, end, want, start + ndev * nvar),
+                                    'native_cmd': 'DAE.request_address(stub, array, ndevice, nvar, collate)'}
+    return {'confirmed': False, 'tried': n}
